@@ -497,7 +497,8 @@ def valOK (T : Tables) (nElems : Nat) (t : VT) : Val → Bool
   | .ref (.idx i) => t == .element && decide (i < nElems)
   | .fixed xs => match T.format t with
       | some (n, k) => t != .element && t != .string && t != .binary &&
-          xs.length == arity t n && xs.all (fieldOK k) && (t != .matrix || n == 16)
+          xs.length == arity t n && xs.all (fieldOK k) &&
+          (t != .matrix || (n == 16 && fieldOK k 0 && fieldOK k f32One))
       | none => false
   | .str s => t == .string && !s.contains 0
   | .bin b => t == .binary && decide (b.length < 2147483648)
@@ -569,6 +570,12 @@ def leafClash (fold : Str → Str) : List KV → List Str → Bool
     fold n = ['n', 'a', 'm', 'e'] || fold n = ['s', 'u', 'b', 'k', 'e', 'y', 's'] ||
     seen.contains (fold n) || leafClash fold rest (fold n :: seen)
 
+/-- one step of the second loop of `from_kv1` when leaves are inlined. -/
+def insertStep (fold : Str → Str) (acc : List (Str × Str)) (c : KV) : List (Str × Str) :=
+  match c with
+  | .leaf cn cv => setItem fold cn cv acc
+  | .block .. => acc
+
 mutual
 def fromKv1 (fold : Str → Str) : KV → ETree
   | .leaf n v => .mk .leafT n [(['v', 'a', 'l', 'u', 'e'], v)] none
@@ -580,9 +587,7 @@ def fromKv1 (fold : Str → Str) : KV → ETree
     if noInline || hasBlock then
       .mk ty (n.getD []) [] (some (fromKv1List fold cs))
     else
-      .mk ty (n.getD []) (cs.foldl (fun acc c => match c with
-        | .leaf cn cv => setItem fold cn cv acc
-        | .block .. => acc) []) none
+      .mk ty (n.getD []) (cs.foldl (insertStep fold) []) none
 def fromKv1List (fold : Str → Str) : List KV → List ETree
   | [] => []
   | c :: cs => fromKv1 fold c :: fromKv1List fold cs
@@ -600,19 +605,19 @@ def toKv1List : List ETree → List KV
   | e :: es => toKv1 e :: toKv1List es
 end
 
-/-- Trees on which the bridge is meant to work: roots only at the top. -/
+/-! Trees on which the bridge is meant to work: roots only at the top. -/
+mutual
 def KV.innerOK : KV → Bool
   | .leaf .. => true
   | .block none _ => false
-  | .block (some _) cs => cs.attach.all fun ⟨c, _⟩ => c.innerOK
-termination_by t => sizeOf t
-decreasing_by
-  simp_wf
-  have := List.sizeOf_lt_of_mem ‹_›
-  omega
+  | .block (some _) cs => innerOKList cs
+def innerOKList : List KV → Bool
+  | [] => true
+  | c :: cs => c.innerOK && innerOKList cs
+end
 
 def KV.ok : KV → Bool
   | .leaf .. => true
-  | .block _ cs => cs.all KV.innerOK
+  | .block _ cs => innerOKList cs
 
 end C14
